@@ -121,10 +121,12 @@ impl Pair {
         for n in syncing {
             nodes[n - 1].actor.verif_set_syncing(w.nsid());
         }
-        // each node remembers the other one as a useful peer of the document (what a finished session leaves behind)
+        // each node remembers the other one as a useful peer of the document (what a finished session leaves behind), and
+        // keeps the document open in its store actor (start_sync reads the remembered peers through the actor)
         for n in 0..2 {
             let other = *nodes[1 - n].id.as_bytes();
             nodes[n].sync.register_useful_peer(w.nsid(), other).await?;
+            nodes[n].sync.open(w.nsid(), iroh_docs::actor::OpenOpts::default().sync()).await?;
         }
         Ok(Pair { nodes, dials: vec![], ns: w.nsid(), queued: [None, None], joined: [false, false], nq: 0, ns_secret: w.ns.clone(),
                   init_frame: {
@@ -239,6 +241,18 @@ impl Pair {
                 } else {
                     self.nodes[n - 1].actor.verif_set_syncing(ns);
                 }
+                started = self.collect(n);
+            }
+            // start_sync for a document that is in the sync set already (the real handler; the other node is a remembered peer)
+            "StartSync" => {
+                let n = a["n"].as_u64().unwrap() as usize;
+                // (environment: the document is open in the node's store actor, as it is for any document that got into the
+                // sync set through start_sync; an earlier leave of this schedule may have closed the harness's own handle)
+                if self.nodes[n - 1].sync.get_state(ns).await.is_err() {
+                    let _ = self.nodes[n - 1].sync.open(ns, iroh_docs::actor::OpenOpts::default().sync()).await;
+                }
+                let r = self.nodes[n - 1].actor.verif_start_sync(ns).await;
+                ev["obs"] = json!(if r.is_ok() { "ok" } else { "err" });
                 started = self.collect(n);
             }
             "Leave" => {
